@@ -19,7 +19,7 @@ RULE = (
     "non-trivial = A non-zero; distinct = sha1(input bytes)"
 )
 BOUNDS = {
-    "quick": "m,n<=4 (tall, square, wide, m=1); all 2^n zero-column masks x 5 entry classes; every duplicated-column pair; ranks 0..min via products; exhaustive small-integer cells: all 2x2 over {0,1,-1,i,j,k}, 3x3 over {-1,0,1} (every 4th), 2x3/3x2 over {0,1,i,j} (every 4th)",
+    "quick": "m,n<=4 (tall, square, wide, m=1); all 2^n zero-column masks x 5 entry classes; every duplicated-column pair; ranks 0..min via products; exhaustive small-integer cells: all 2x2 over {0,1,-1,i,j,k}, 3x3 over {-1,0,1} (every 4th), 2x3/3x2 over {0,1,i,j} (every 4th); component-masked (real, complex, single-axis) inputs 20x16, 16x16, 12x24, 33x8, 40x25 x zero-column sets; xf tinysub / linedep variants",
     "thorough": "m,n<=6, 3 fill rows; exhaustive small-integer cells in full (2x2 over {0,1,-1,i,j,k}, 3x3 over {-1,0,1}, 2x3/3x2 over {0,1,i,j}) and 3x3 over {-1,0,1,2} (every 16th)",
 }
 THOROUGH_STREAMS = 8
